@@ -165,6 +165,29 @@ def plain_upload(u):
     tail = u.file.read(50)
     if big != data or b''.join(pieces) != data or tail != data[max(0, len(data) - 3):]:
         return ('file', u.raw_filename, ct, big, 'sized reads leave the part')
+    # read(-1) / read(None): everything that is left of the part, nothing of what follows it
+    u.file.seek(0)
+    all_neg = u.file.read(-1)
+    u.file.seek(min(3, len(data)))
+    rest_neg = u.file.read(-1)
+    u.file.seek(0)
+    all_none = u.file.read(None)
+    if all_neg != data or rest_neg != data[3:] or all_none != data:
+        return ('file', u.raw_filename, ct, all_neg, 'read(-1) / read(None) leave the part')
+
+    class WriteOnlySink:
+        """a destination with nothing but write(), which (like many hand-written sinks) returns nothing"""
+
+        def __init__(self):
+            self.parts = []
+
+        def write(self, b):
+            self.parts.append(bytes(b))
+    u.file.seek(0)
+    wo = WriteOnlySink()
+    u.save(wo, chunk_size=7)
+    if b''.join(wo.parts) != data:
+        return ('file', u.raw_filename, ct, b''.join(wo.parts), 'save() into a write-only sink differs')
     # the other way to the content: FileUpload.save() into a file-like object and into a directory
     import io
     import os
